@@ -23,7 +23,9 @@ var c17Tokens2 = []string{"<ul>", "<li>", "</li>", "<select>", "<option>", "<tex
 	"<form>", "<input disabled VALUE=x>", "<h1>", "<h2>", "</h1>", "&lt;", "&amp;", "&nbsp;", "&#x41;", "&bogus;", "<math>", "<mi>", "</math>", "<template>", "</template>", "<![CDATA[x]]>", "<?pi?>", "<!DOCTYPE x>",
 	"\x00", "<a b b=2>", "<p/>", "<br/>", "</br>", "<img src=a>", "<body class=c>", "<html lang=en>", "<head>", "</head>", "<frameset>", "<noscript>", "<plaintext>",
 	"<o:p:q data:x:y=1 :z=2 w:=3>", "</o:p:q>", "<:b a::c=1 ::=2>",
-	"<svg viewBox='0 0 1 1' preserveAspectRatio=x>", "<clipPath clipPathUnits=u>", "<foreignObject>", "</svg>", "<math definitionURL=u>", "<linearGradient gradientUnits=g>", "<DIV ID=A>"}
+	"<svg viewBox='0 0 1 1' preserveAspectRatio=x>", "<clipPath clipPathUnits=u>", "<foreignObject>", "</svg>", "<math definitionURL=u>", "<linearGradient gradientUnits=g>", "<DIV ID=A>",
+	// attribute values kept verbatim: padded with blanks, tabs, line feeds, NBSP; empty; blank only
+	`<a title=" a b " class=" x" alt="&#9;t&#10;">`, "<img alt='' longdesc=\" \" id='x '>", "<p id=\"A&nbsp;\" lang=\"\u00a0en \">"}
 
 // c17Expected is the independent oracle: a recursive walk of html.Parse's DOM.
 func c17Expected(text string) (*adoc.Doc, error) {
